@@ -8,27 +8,6 @@ type verifState struct {
 	probe func(kind uint8)
 }
 
-// Probe kinds reported through VerifProbe.
-const (
-	VerifProbeFlush uint8 = iota
-	VerifProbeForward
-	VerifProbeRename
-	VerifProbeCommit
-	VerifProbeRollback
-	VerifProbeBTBHit
-	VerifProbeBTBMiss
-	VerifProbeSeqDrop
-	VerifProbeL1Evict
-	VerifProbeL3Evict
-	VerifProbeSnoopEvict
-	VerifProbeSnoopWriteBack
-	VerifProbeLockWait
-	VerifProbeCancelLocked
-	VerifProbePendingFetchWait
-	VerifProbeMSIRefresh
-	VerifProbeKinds
-)
-
 // VerifSetHooks installs the harness callbacks (nil disables one).
 func (ctx *Context) VerifSetHooks(tick func(cycle int), probe func(kind uint8)) {
 	ctx.verif.tick = tick
